@@ -4,6 +4,7 @@ package forwarder
 
 import (
 	"io"
+	"net"
 	"runtime"
 	"time"
 
@@ -19,10 +20,66 @@ func init() {
 		zzPS = nil
 		zzK = nil
 		nl.DoHook = nil
+		if zzGTP != nil {
+			zzGTPDrain()
+		}
+		zzGTPLog = nil
 	}
 }
 
 func zzYield() { runtime.Gosched(); time.Sleep(3 * time.Millisecond) }
+
+// GTP-U side: the link socket is 127.0.0.3:2152, the peers are sinks on 127.0.0.1/2:2152
+type zzDatagram struct {
+	b  []byte
+	to net.Addr
+}
+
+var (
+	zzGTP     *net.UDPConn
+	zzGTPSink []*net.UDPConn
+	zzGTPLog  []zzDatagram
+)
+
+func zzGTPConn() *net.UDPConn {
+	if zzGTP == nil {
+		for _, a := range []string{"127.0.0.1:2152", "127.0.0.2:2152"} {
+			ua, _ := net.ResolveUDPAddr("udp4", a)
+			c, err := net.ListenUDP("udp4", ua)
+			if err != nil {
+				panic("zz native env: " + err.Error())
+			}
+			zzGTPSink = append(zzGTPSink, c)
+		}
+		ua, _ := net.ResolveUDPAddr("udp4", "127.0.0.3:2152")
+		c, err := net.ListenUDP("udp4", ua)
+		if err != nil {
+			panic("zz native env: " + err.Error())
+		}
+		zzGTP = c
+	}
+	return zzGTP
+}
+
+func zzGTPDrain() {
+	buf := make([]byte, 65536)
+	for _, c := range zzGTPSink {
+		for {
+			c.SetReadDeadline(time.Now().Add(2 * time.Millisecond))
+			n, _, err := c.ReadFrom(buf)
+			if err != nil {
+				break
+			}
+			b := make([]byte, n)
+			copy(b, buf[:n])
+			zzGTPLog = append(zzGTPLog, zzDatagram{b, c.LocalAddr()})
+		}
+	}
+}
+
+func zzSentCountOn(c *net.UDPConn) int           { zzGTPDrain(); return len(zzGTPLog) }
+func zzSentBytesOn(c *net.UDPConn, i int) []byte { zzGTPDrain(); return zzGTPLog[i].b }
+func zzSentAddrOn(c *net.UDPConn, i int) net.Addr { zzGTPDrain(); return zzGTPLog[i].to }
 
 func zzPerio() *perio.Server {
 	if zzPS == nil {
